@@ -146,13 +146,21 @@ def run_tree(case: dict):
                 continue
             segs = rel.split("/")[1:]
             try:
-                "/".join(segs).encode("utf-8")
                 text = data.decode("utf-8")
             except UnicodeError:
                 continue
+            try:
+                "/".join(segs).encode("utf-8")
+                name_is_utf8 = True
+            except UnicodeError:
+                # a name that is not UTF-8 is still a name: RFC 3986 spells its bytes as %XX, and that is its own path
+                name_is_utf8 = False
             if len(data) > (100 if case["small_max"] else 100 * 1024 * 1024):
                 continue
             reqs.append({"path": pathspell.canonical(segs), "labels": ["complete:encoded"], "kind": "complete", "rel": rel})
+            if not name_is_utf8:
+                reqs[-1]["labels"] = ["complete:encoded", "complete:undecodable-name"]
+                continue
             if all(pathspell.literal_ok(s) for s in segs):
                 reqs.append({"path": "/" + "/".join(segs), "labels": ["complete:literal"], "kind": "complete", "rel": rel})
             elif all(pathspell.literal_ok("".join(ch for ch in s if ord(ch) < 0xA0)) and s not in (".", "..") for s in segs):
@@ -207,7 +215,9 @@ def run_tree(case: dict):
                     # does (a link is followed before a following '..' is applied)
                     from urllib.parse import unquote as _unq
 
-                    dec = _unq(request.path)
+                    # %XX spells a byte; bytes that are not UTF-8 stay those bytes (PEP 383), as file names do
+                    dec = _unq(request.path, errors="surrogateescape")
+                    real = None
                     if "\x00" not in dec:
                         root_real = os.path.realpath(os.path.join(S, root))
                         try:
@@ -218,21 +228,24 @@ def run_tree(case: dict):
                             return viol("success-for-path-resolving-outside-or-to-nothing",
                                         f"path {rq['path']!r} resolves to {real!r} ({'missing' if not os.path.lexists(real) else 'outside the root'}) "
                                         f"but was answered {status} {meta[:40]!r}", path=rq["path"])
-                    if body_s.startswith("# Index of"):
-                        stats["listing"] += 1
-                        names = sorted(set(re.findall(r"^=> \S+ (.*?)(?:/| \([^()]*\))$", body_s, re.M)))
-                        # must be the listing of a directory inside the root
-                        listed = [ln for ln in body_s.split("\n") if ln.startswith("=> ") and not ln.endswith(" ..")]
-                        cands = [d for d, ents in dir_entries.items() if len(ents) == len(listed)
-                                 and all(any(e in ln for ln in listed) for e in ents)]
-                        ins = [d for d in cands if d == root or d.startswith(inside_prefix)]
-                        if cands and not ins:
-                            return viol("outside-directory-listed", f"path {rq['path']!r} lists {cands[0]!r}", path=rq["path"])
-                    else:
+                    # exactly the text of one inside regular file ...
+                    match = [r for r, d in files if r.startswith(inside_prefix) and d.decode("utf-8", "replace") == body_s]
+                    if match:
                         stats["served"] += 1
-                        # exactly the text of one inside regular file
-                        match = [r for r, d in files if r.startswith(inside_prefix) and d.decode("utf-8", "replace") == body_s]
-                        if not match:
+                    else:
+                        # ... or the listing of the directory the path denotes. How a listing is laid out is the
+                        # implementation's business; it has to name the entries of that directory (plain or
+                        # percent-encoded) and must not be the listing of a directory outside the root.
+                        stats["listing"] += 1
+
+                        def names_all(d):
+                            return all(e in body_s or pathspell.rfc_encode(e) in body_s for e in dir_entries.get(d, []))
+
+                        rel_real = os.path.relpath(real, os.path.realpath(S)) if real is not None else None
+                        if not (case["listing"] and rel_real in dir_entries and names_all(rel_real)):
+                            outs = [d for d, ents in dir_entries.items() if ents and not (d == root or d.startswith(inside_prefix)) and names_all(d)]
+                            if outs:
+                                return viol("outside-directory-listed", f"path {rq['path']!r} lists {outs[0]!r}", path=rq["path"])
                             return viol("2x-body-is-not-an-inside-file", f"path {rq['path']!r} -> {body_s[:80]!r}", path=rq["path"])
                 else:
                     stats["non2x"] += 1
